@@ -62,8 +62,12 @@ type Target struct {
 	TrapTerm     bool `json:"trap_term,omitempty"` // the target's shell ignores SIGTERM
 	// TrapExit0: the target's shell answers SIGTERM with a clean `exit 0` (a server that shuts
 	// down gracefully): an overrun timeout must still be a failure
-	TrapExit0 bool   `json:"trap_exit0,omitempty"`
-	SleepIf   string `json:"sleep_if,omitempty"` // marker: sleep 20 s when present
+	TrapExit0 bool `json:"trap_exit0,omitempty"`
+	// BgHold: when the SleepIf marker is present the command first puts a child into the
+	// background that lives for this many seconds and inherits the command's stdout/stderr (a
+	// server started with &), then sleeps
+	BgHold  int    `json:"bg_hold,omitempty"`
+	SleepIf string `json:"sleep_if,omitempty"` // marker: sleep 20 s when present
 	// SleepIfMs: how long to sleep instead of 20 s (an overrun just beyond the timeout)
 	SleepIfMs int    `json:"sleep_if_ms,omitempty"`
 	Omit      string `json:"omit,omitempty"`
@@ -229,6 +233,9 @@ func (t *Target) Command() string {
 	}
 	if t.SleepAfterMs != 0 {
 		fmt.Fprintf(&sb, " --sleepafter %d", t.SleepAfterMs)
+	}
+	if t.BgHold > 0 {
+		fmt.Fprintf(&sb, " --bghold %d", t.BgHold)
 	}
 	if t.Omit != "" {
 		sb.WriteString(" --omit " + shq(t.Omit))
